@@ -20,13 +20,17 @@ import vlib
 FAULTS = ["500", "502", "504", "408", "429", "429ra", "404", "401", "416r", "reset", "trunc0", "trunc700"]
 TRANSIENT = {"500", "502", "504", "408", "429", "429ra", "reset", "trunc0", "trunc700"}
 L1_KINDS = ["ok", "short0", "short1", "short206", "okclbad", "ok200", "reset", "s429", "s429ra", "s408", "s500",
-            "s502", "s504", "s403", "s503", "s404", "s416", "s401n", "s401s", "s401b"]
+            "s502", "s504", "s403", "s503", "s404", "s416", "s401n", "s401s", "s401b",
+            # second round: more status classes and Retry-After spellings
+            "s400", "s405", "s409", "s501", "s304", "s500ra", "s429ra0", "s429rad"]
 OPS = ["ping", "repo-list", "tag-list", "tag-list-paged", "manifest-get", "manifest-get-digest", "manifest-head",
        "manifest-put", "manifest-put-subject", "manifest-put-subject-fb", "manifest-delete",
        "manifest-delete-ref-fb", "tag-delete", "tag-delete-fb", "blob-get", "blob-head", "blob-delete",
-       "blob-mount", "blob-put", "blob-put-chunked", "blob-put-stream", "blob-put-oneshot", "referrer-list", "referrer-list-paged",
+       "blob-mount", "blob-put", "blob-put-chunked", "blob-put-stream", "blob-put-oneshot",
+       "manifest-head-nodigest", "manifest-head-digest", "blob-put-chunked-minlen", "blob-put-chunked-sha512",
+       "blob-mount-refused", "blob-get-seek", "referrer-list", "referrer-list-paged",
        "referrer-list-fb"]
-READ_OPS = {"tag-list", "tag-list-paged", "manifest-get", "manifest-get-digest", "manifest-head", "blob-get",
+READ_OPS = {"manifest-head-nodigest", "manifest-head-digest", "blob-get-seek", "tag-list", "tag-list-paged", "manifest-get", "manifest-get-digest", "manifest-head", "blob-get",
             "blob-head", "referrer-list", "referrer-list-paged", "referrer-list-fb"}
 
 
@@ -149,6 +153,26 @@ def l1_order_scenarios():
     return out
 
 
+def l1_dimensions(rng, scns):
+    """Input dimensions of the layer-1 driver that the design spec abstracts from (they must not change the
+    behaviour (D) predicts): delay settings, TLS scheme, address != name, rate limit, read buffer size, spelling
+    of Seek, double Close.  Random assignment per scenario (each value of each dimension occurs hundreds of times
+    per run, every pair of values many times); a third of the scenarios keeps the first-round setting."""
+    for s in scns:
+        if str(s["id"]).startswith(("order-", "ra-", "oneshot-")) or rng.random() < 0.33:
+            continue
+        c = s["conf"]
+        if c.get("tail") != "s429ra" and "di_us" not in c:
+            c["di_us"] = rng.choice([1000, 3000, 3000, 6000])
+        c["dmax_real"] = rng.choice([0, 1, 2, 30, -1])
+        c["tls"] = rng.random() < 0.5
+        c["hostport"] = rng.random() < 0.4
+        c["rps"] = rng.choice([0, 0, 2000])
+        c["rbuf"] = rng.choice([0, 1, 7, 64, 100, 4096])
+        c["whence"] = rng.choice([0, 1, 2])
+        c["close2"] = rng.random() < 0.3
+
+
 def classify(t, r):
     """Signature of a rejected trace: the violated obligation + what makes the class specific."""
     d = (r["detail"] or r["reason"]).strip('"')
@@ -202,6 +226,7 @@ def run_l1(ctx, rng, cov):
     ntlc = len(scns)
     scns += l1_tail_scenarios(rng, thorough)
     scns += l1_order_scenarios()
+    l1_dimensions(rng, scns)
     traces = drive(ctx, "l1", scns, "l1", par=24)
     cov["l1_tlc_scenarios"] = ntlc
     cov["l1_scenarios"] = len(scns)
@@ -243,8 +268,26 @@ def mirror_confs(op, thorough):
     return c
 
 
+L2_DIMS = ("conc1", "cache", "port", "tls", "prefix", "nohead")
+# orthogonal array L8: every pair of values of every two of the six binary dimensions occurs in some row
+L2_ROWS = ["000000", "000111", "011001", "011110", "101010", "101101", "110011", "110100"]
+
+
+def l2_apply(base, row):
+    """Second-round input dimensions of a layer-2 configuration: ReqConcurrent 1, manifest/referrer cache on,
+    host names with a port, TLS enabled (https), mirrors with a PathPrefix, APIOpts disableHead."""
+    b = dict(base, row=row)
+    on = {d: row[i] == "1" for i, d in enumerate(L2_DIMS)}
+    if on["conc1"]:
+        b["conc"] = 1
+    b["cache"], b["port"], b["tls"], b["nohead"] = on["cache"], on["port"], on["tls"], on["nohead"]
+    b["mirrors"] = [dict(m, name=m["name"] + (":5000" if on["port"] else ""), prefix="mir" if on["prefix"] else "")
+                    for m in base["mirrors"]]
+    return b
+
+
 def l2_key(s):
-    return json.dumps([s["op"], s["R"], s["upprio"], s["mirrors"]], sort_keys=True)
+    return json.dumps([s["op"], s["R"], s["upprio"], s["mirrors"], s.get("conc", 0), s.get("row", "000000")], sort_keys=True)
 
 
 def l2_class(t, r):
@@ -270,39 +313,40 @@ def l2_fixed(base, info):
 
     def find(op, R, nm):
         for b in base:
-            if b["op"] == op and b["R"] == R and len(b["mirrors"]) == nm and \
+            # any retry limit (request positions do not depend on it); the caller sets the one it needs
+            if b["op"] == op and len(b["mirrors"]) == nm and b.get("row") == "000000" and \
                     all(m["mode"] == "has" and m["prio"] == 0 for m in b["mirrors"]) and b["upprio"] == 0:
-                return b
-        return None
+                return dict(b, R=R), b
+        raise vlib.ToolError("no first-round configuration of %s with %d mirror(s) among the probes" % (op, nm))
 
-    def first(b, cl):
-        return info[l2_key(b)][1].index(cl) + 1
+    def first(b0, cl):
+        return info[l2_key(b0)][1].index(cl) + 1
 
     for op in ("blob-put-chunked", "blob-put-stream"):
-        b = find(op, 3, 0)
+        b, b0 = find(op, 3, 0)
         if b:
-            p = first(b, "upload_patch")
+            p = first(b0, "upload_patch")
             for kind in ("416r", "404"):                                   # S2
                 out.append(dict(b, faults=[{"pos": p, "kind": kind}]))
             for kind in ("500", "504", "404"):                             # seeded change C12-2
                 out.append(dict(b, persist={"class": "upload_patch", "kind": kind, "from": 2}))
-    b = find("blob-delete", 3, 1)                                           # writes skip mirrors
+    b, b0 = find("blob-delete", 3, 1)                                           # writes skip mirrors
     if b:
         out.append(dict(b))
-    b = find("blob-get", 3, 0)                                              # throttle slots
+    b, b0 = find("blob-get", 3, 0)                                              # throttle slots
     if b:
         out.append(dict(b, R=5, persist={"class": "blob_get", "kind": "trunc700", "from": 1}))
     for op, cl in (("tag-list-paged", "tag_list"), ("referrer-list-paged", "referrers")):
-        b = find(op, 3, 1)                                                  # continuation without back-off
+        b, b0 = find(op, 3, 1)                                                  # continuation without back-off
         if b:
             out.append(dict(b, faults=[{"pos": 2, "kind": "500"}]))
             out.append(dict(b, faults=[{"pos": 2, "kind": "429ra"}]))
-    b = find("blob-put-oneshot", 3, 0)                                      # seeded change C17-4
+    b, b0 = find("blob-put-oneshot", 3, 0)                                      # seeded change C17-4
     if b:
         for conc in (1, 2, 3):
             for kind in ("500", "reset"):
                 out.append(dict(b, R=5, conc=conc, persist={"class": "upload_put", "kind": kind, "from": 1}))
-    b = find("referrer-list", 3, 0)                                         # referrers probe
+    b, b0 = find("referrer-list", 3, 0)                                         # referrers probe
     if b:
         out.append(dict(b, faults=[{"pos": 1, "kind": "502"}]))
     return out
@@ -314,17 +358,23 @@ def run_l2(ctx, rng, cov):
     base = []
     for op in OPS:
         for mirrors, upprio in mirror_confs(op, thorough):
-            for R in ([1, 2, 3] if thorough else [2, 3]):
-                base.append({"id": "probe-%d" % len(base), "op": op, "R": R, "upprio": upprio, "mirrors": mirrors,
-                             "faults": [], "di_us": 2000})
+            b0 = {"op": op, "upprio": upprio, "mirrors": mirrors, "faults": [], "di_us": 2000}
+            if thorough:
+                variants = [(R, "000000") for R in (1, 2, 3)] + [(R, rng.choice(L2_ROWS[1:])) for R in (2, 3)]
+            else:
+                Rs = rng.sample([2, 3], 2)
+                variants = [(Rs[0], "000000"), (Rs[1], rng.choice(L2_ROWS[1:]))]
+            for R, row in variants:
+                base.append(dict(l2_apply(dict(b0, R=R), row), id="probe-%d" % len(base),
+                                 di_us=rng.choice([1000, 2000, 2000, 5000]) if row != "000000" else 2000))
     probes = drive(ctx, "l2probe", base, "l2probe", par=24)
     info = {}
     for s, t in zip(base, probes):
         # without mirrors and without faults every operation succeeds, else driver or simreg are broken (with
         # mirrors a failure may be the code's: the probe traces are validated like all others)
-        if t["meta"]["ff_ret"] == "err" and not s["mirrors"]:
+        if t["meta"]["ff_ret"] == "err" and not s["mirrors"] and s.get("row") == "000000" and not t["meta"].get("hang"):
             raise vlib.ToolError("fault-free %s fails without mirrors: the driver or simreg is broken" % s["op"])
-        info[l2_key(s)] = (t["meta"]["ff_n"], t["meta"]["classes"])
+        info[l2_key(s)] = (t["meta"]["ff_n"], t["meta"]["classes"] or [])
     # 2. fault plans
     singles, doubles, persist = [], [], []
     for s in base:
